@@ -170,7 +170,7 @@ run_wk_case(char *line, FILE *out) {
   }
   fprintf(out, "%zu ", L);
   vf_puthex(out, full, L);
-  blens = (size_t *)malloc((L + 8) * sizeof(size_t));
+  blens = (size_t *)malloc((cap + 8) * sizeof(size_t)); /* serves listing and links */
   for (off = 0; off <= L + 2; off++) {
     int nb = pick_buflens(diag, L, off, blens), k;
     for (k = 0; k < nb; k++) {
